@@ -28,12 +28,14 @@ PROPS = {
              "what": "partial_cmp(a,b) == reverse(partial_cmp(b,a)) for all pairs"},
             {"group": "g0", "name": "c17_translation_invariant", "kind": "complete", "tier": "quick",
              "what": "partial_cmp(a+n,b+n) == partial_cmp(a,b) for all a,b and all n <= 2^31-1"},
+            {"group": "g0", "name": "c17_timestamp_cmp_is_serial_cmp", "kind": "complete", "tier": "quick",
+             "what": "rdata::dnssec::Timestamp::partial_cmp == Serial::partial_cmp == RFC 1982 on all 2^64 pairs"},
         ],
-        "explanation": "Serial::add and Serial::partial_cmp (real text) carry the RFC 1982 spec functions as postconditions; "
+        "explanation": "Timestamp::{partial_cmp, canonical_cmp, into_int} (rdata/dnssec.rs) are proved to delegate to Serial. Serial::add and Serial::partial_cmp (real text) carry the RFC 1982 spec functions as postconditions; "
                        "the four laws of the property are lemmas over those spec functions and exec wrappers over the contracts; "
                        "Kani re-proves the laws on the compiled code over the full u32 domains (loop-free, complete).",
-        "not_covered": "Timestamp (rdata/dnssec.rs) and zonetree Version delegate to Serial; their delegation is covered by "
-                       "Kani harnesses only where listed.",
+        "not_covered": "zonetree Version (feature unstable-zonetree) delegates to Serial; that delegation is not under contract here "
+                       "(see C09). SOA serial comparisons in xfr/zonetree call Serial::partial_cmp (callers not under contract).",
     },
     "C18": {
         "level": "proof",
@@ -68,7 +70,7 @@ PROPS = {
                        "(run_concat), Base16 accepts exactly even-length hex text. The encoders use slice::chunks and fmt::Write "
                        "(outside Verus): Kani proves display* == the same RFC arithmetic per chunk length over all octet values.",
         "not_covered": "Multi-chunk encoder output beyond the bounded harnesses rests on slice::chunks composing per chunk (assumed). "
-                       "SymbolConverter (scanner-side decoders) not yet under contract. Standard-alphabet Base32 is not implemented by the "
+                       "SymbolConverter::{process_char, process_tail} of base64 and base32 are under contract (same state machines); the process_symbol wrappers (trait-generic symbol to char conversion) and the base16 SymbolConverter are not. Standard-alphabet Base32 is not implemented by the "
                        "library. Fixed-capacity targets that refuse to grow (ShortBuf) are outside the contracts (D13). "
                        "Non-canonical trailing bits are accepted by the decoders (RFC 4648 section 3.5 permits either).",
         "assumptions": [
@@ -128,6 +130,38 @@ PROPS = {
                        "zonefile::inplace name conversion. Builders that refuse to grow (ShortBuf) are outside the contracts (D13).",
         "assumptions": [
             "OctetsBuilder + AsRef<[u8]> + AsMut<[u8]> are modelled by one prelude trait (append_slice appends or fails unchanged; as_mut keeps the length)",
+        ],
+    },
+    "C02": {
+        "level": "other",
+        "units": ["compressors"],
+        "kani": [
+            {"group": "g0", "name": "c02_header_counts_inc_total", "kind": "complete", "tier": "quick",
+             "what": "HeaderCounts::inc_{qd,an,ns,ar}count on every 12-octet header: exact increment, CountOverflow exactly at 0xFFFF, "
+                     "all other counts and the first four header octets unchanged"},
+            {"group": "g0", "name": "c02_stream_target_prefix_bounded", "kind": "bounded", "tier": "quick",
+             "bound": "StreamTarget<Array<12>>, three operations (append <= 6 octets, truncate, append <= 6 octets), all contents",
+             "what": "after every append_slice/truncate the two-octet prefix equals the message length; a refused append leaves the message unchanged"},
+            {"group": "g0", "name": "c02_failed_push_leaves_message_unchanged_bounded", "kind": "bounded", "tier": "thorough", "timeout": 900,
+             "bound": "MessageBuilder<Array<40>>, one fixed question pushed twice, symbolic push limit <= 48",
+             "what": "a push that fails (space or limit) leaves octets and all four counts unchanged; a successful one adds exactly one to one count and stays below the limit"},
+        ],
+        "replays": [
+            {"bin": "d4_compress_pointer_beyond_3fff", "finding": "D4"},
+        ],
+        "explanation": "bounded contract checking plus unbounded contracts on the compressor position tables. Verus (unbounded): "
+                       "StaticCompressor::insert remembers a position only if it is below 0x4000 (so `pos | 0xC000` is a faithful "
+                       "RFC 1035 4.1.4 pointer: lemma_pointer_faithful), keeps the table sorted and in range; Truncate for "
+                       "StaticCompressor forgets exactly the entries at or behind the cut; HashEntry::new accepts a head position "
+                       "iff it is below 0x4000. Kani: HeaderCounts increments complete over all headers; StreamTarget prefix and "
+                       "all-or-nothing push are bounded harnesses (bounds stated). Native replay of D4 for all three compressors.",
+        "not_covered": "The sequence-level round trip (arbitrary pushes parse back to the same items) is not under contract: a CBMC "
+                       "harness for it does not terminate, MessageBuilder::push takes FnOnce(&mut Target) closures (outside Verus), "
+                       "StreamTarget::update_shim uses u16::to_be_bytes/copy_from_slice on a sub-slice (no Verus spec possible: "
+                       "assume_specification cannot name the const-generic return type). TreeCompressor::insert/get and "
+                       "HashCompressor (hash maps, label iterators) are covered only by the native D4 replay. BytesMut/heapless targets.",
+        "assumptions": [
+            "octseq Truncate is modelled by a prelude trait (truncate keeps the first len octets)",
         ],
     },
 }
